@@ -120,6 +120,9 @@ func genFormatCase(c *core.Ctx, r *core.Rand, format string, allowMalformed bool
 		if r.Chance(1, 8) {
 			rec.Num = "0"
 		}
+		if r.Chance(1, 10) {
+			rec.Num = r.Pick("NaN", "Inf", "-Inf", "1e999", "1.5", "0x1p-2")
+		}
 		if big && k.Widths == nil && i%3 == 0 {
 			rec.F[len(rec.F)-1] = strings.Repeat(k.GenVal(r, 8)+"é", []int{450, 910, 7300}[r.Intn(3)])
 		}
@@ -129,7 +132,7 @@ func genFormatCase(c *core.Ctx, r *core.Rand, format string, allowMalformed bool
 		cs.desc = append(cs.desc, "big")
 		c.Inc("big_inputs")
 	}
-	cs.mode = r.Pick(gen.ModePass, gen.ModeFailing, gen.ModeFilter, gen.ModeCopy, gen.ModeRich)
+	cs.mode = r.Pick(gen.ModePass, gen.ModeFailing, gen.ModeFilter, gen.ModeCopy, gen.ModeRich, gen.ModeFloat)
 	cs.schema = k.Schema(cs.mode)
 	o := gen.RenderOpts{NoFinalTerminator: r.Chance(1, 3), BlankLines: r.Chance(1, 3), CRLF: r.Chance(1, 3), BOM: r.Chance(1, 5)}
 	if o.BOM {
